@@ -386,7 +386,9 @@ func TestVerifC08(t *testing.T) {
 		}
 		ok := o.note == ""
 		sig := "message pipeline: decryptable message never delivered"
-		if o.deadlock {
+		if strings.HasPrefix(o.note, "harness:") {
+			sig = "harness error"
+		} else if o.deadlock {
 			sig = "message pipeline: deadlock"
 		} else if strings.Contains(o.note, "times for") || strings.Contains(o.note, "never announced") || strings.Contains(o.note, "another payload") {
 			sig = "message pipeline: wrong delivery"
@@ -417,6 +419,9 @@ func TestVerifC08(t *testing.T) {
 			o = &c08obs{}
 			return c08setup(t, sc, o)(c)
 		}, order, 400, maxRuns/len(small), func(r vsched.Run) {
+			if r.Err != "" {
+				o.note, o.deadlock = "harness: "+r.Err, false
+			}
 			emit("exhaustive", sc, o, r.Sched)
 		})
 		t.Logf("scenario %v: %d schedules, exhausted=%v", sc, n, exhausted)
@@ -452,6 +457,9 @@ func TestVerifC08(t *testing.T) {
 		seed := rng.Int63()
 		prng := rand.New(rand.NewSource(seed))
 		r := vsched.RunRandom(c08setup(t, sc, o), order, 2000, func(n int) int { return prng.Intn(n) })
+		if r.Err != "" {
+			o.note, o.deadlock = "harness: "+r.Err, false
+		}
 		emit("random", sc, o, r.Sched)
 	}
 }
